@@ -22,7 +22,7 @@ LADDER_FULL = [0, 1, 7, 8, 9, 255, 256, 4095, 4096, 4097, 65536, 300000]
 M17 = [C.CKM_AES_ECB, C.CKM_AES_CBC, C.CKM_AES_CBC_PAD, C.CKM_AES_CTR, C.CKM_AES_GCM, C.CKM_AES_KEY_WRAP, C.CKM_AES_KEY_WRAP_PAD, C.CKM_AES_CMAC,
        C.CKM_AES_ECB_ENCRYPT_DATA, C.CKM_AES_CBC_ENCRYPT_DATA, C.CKM_SHA256_HMAC, C.CKM_SHA_1_HMAC, C.CKM_SHA512_HMAC, C.CKM_CONCATENATE_BASE_AND_DATA,
        C.CKM_CONCATENATE_DATA_AND_BASE, C.CKM_CONCATENATE_BASE_AND_KEY, C.CKM_SHA384_HMAC]
-READ = S.ALL_ATTRS
+READ = S.ALL_ATTRS + [C.CKA_PUBLIC_KEY_INFO]
 
 
 def pattern(n, seed):
@@ -49,6 +49,13 @@ def kind_template(kind, label, token=True):
         return F.template("aes128", token=token, private=False, label=label, ident=b"tplm",
                           extra=[(C.CKA_WRAP, True), (C.CKA_UNWRAP, True), (C.CKA_WRAP_TEMPLATE, [(C.CKA_KEY_TYPE, C.CKK_AES), (C.CKA_ALLOWED_MECHANISMS, mechlist([C.CKM_AES_CBC, C.CKM_AES_ECB]))]),
                                  (C.CKA_UNWRAP_TEMPLATE, [(C.CKA_KEY_TYPE, C.CKK_AES), (C.CKA_END_DATE, b"20300101")])])
+    if kind == "aes-locked":
+        # the "lock" booleans away from their defaults: may be neither destroyed nor copied
+        return F.template("aes128", token=token, private=True, label=label, ident=b"locked", extra=[(C.CKA_DESTROYABLE, False), (C.CKA_COPYABLE, False)])
+    if kind == "nomod-data":
+        return [(C.CKA_CLASS, C.CKO_DATA), (C.CKA_TOKEN, token), (C.CKA_PRIVATE, False), (C.CKA_LABEL, label), (C.CKA_VALUE, pattern(40, 7)), (C.CKA_MODIFIABLE, False)]
+    if kind == "rsapub-info":
+        return F.template("rsa1024_pub", token=token, private=False, label=label, ident=b"pki", extra=[(C.CKA_PUBLIC_KEY_INFO, bytes.fromhex("3003020101"))])
     if kind == "aes-plain":
         return F.template("aes128", token=token, private=False, label=label, ident=b"", extra=[(C.CKA_ALLOWED_MECHANISMS, mechlist([C.CKM_AES_CBC]))])
     if kind == "aes-noset":
@@ -80,7 +87,7 @@ class Model:
 class C05(CheckBase):
     ID = "C05"
 
-    def __init__(self, ladder=tuple(LADDER_QUICK), kinds=("aes-rich", "aes-tpl-bytes", "aes-tpl-mechs", "aes-plain", "aes-noset", "rsa1024_priv", "cert", "ec256_pub", "session-aes", "session-prv"), max_objs=2):
+    def __init__(self, ladder=tuple(LADDER_QUICK), kinds=("aes-rich", "aes-tpl-bytes", "aes-tpl-mechs", "aes-plain", "aes-noset", "aes-locked", "nomod-data", "rsapub-info", "rsa1024_priv", "cert", "ec256_pub", "session-aes", "session-prv"), max_objs=2):
         self.kw = dict(ladder=tuple(ladder), kinds=tuple(kinds), max_objs=max_objs)
         self.ladder, self.kinds, self.max_objs = list(ladder), list(kinds), max_objs
 
@@ -462,7 +469,7 @@ def main(tier):
     # the same histories on the SQLite store (reduced kind list in the quick tier; successors are reached in restoring snapshots);
     # the third observer reads the database with Python's sqlite3 module
     ddepth = 3
-    exd = Explorer(C05(**(dict(kinds=("aes-rich", "aes-tpl-bytes", "aes-tpl-mechs", "aes-noset", "rsa1024_priv", "cert", "session-prv"), ladder=(0, 1, 4097)) if quick else kw)),
+    exd = Explorer(C05(**(dict(kinds=("aes-rich", "aes-tpl-bytes", "aes-tpl-mechs", "aes-noset", "aes-locked", "nomod-data", "rsapub-info", "rsa1024_priv", "cert", "session-prv"), ladder=(0, 1, 4097)) if quick else kw)),
                    variant=variant, store="db", deadline=deadline)
     try:
         fixd = exd.bfs(ddepth)
